@@ -332,6 +332,9 @@ func Generate(profile string, seed uint64, tier string) (*Scenario, error) {
 	case "C07c":
 		sc.Property = "C07"
 		genC07c(g, sc, tier)
+	case "C05h":
+		sc.Property = "C05"
+		genC05h(g, sc, tier)
 	default:
 		return genOther(g, sc, profile, tier)
 	}
@@ -515,6 +518,8 @@ func Execute(sc *Scenario) *Verdict {
 		return RunC09cScenario(sc)
 	case "C16c":
 		return RunSecConcScenario(sc)
+	case "C05h":
+		return RunC05hScenario(sc)
 	}
 	return execOther(sc)
 }
